@@ -1075,6 +1075,10 @@ func init() {
 }
 
 func run(c *core.Ctx) {
+	// generic checks (lg.Independence): every rule call below is repeated on
+	// the same objects (verdict and quantities must not change) and rejected
+	// transactions are re-run in other presentations of the same maps
+	lg.EnableChecks(c)
 	co := &collector{m: map[string]*finding{}}
 	perEra := c.N(5000, 300000)
 	payments := c.N(400, 20000)
@@ -1152,8 +1156,15 @@ func run(c *core.Ctx) {
 		c.Distinct(en, core.HexFull(built.TxId[:]), fmt.Sprint(d.poolsInLS), d.inputs[0].coin)
 		truth := balanced(d, 0)
 		var rerr error
-		if pn, val, _ := core.Safely(func() { rerr = rule(tx, 1000, st, pps[e]) }); pn {
+		if pn, val, _ := core.Safely(func() {
+			rerr = lg.Checked(e, tx, st, func() error { return rule(tx, 1000, st, pps[e]) })
+		}); pn {
 			rerr = fmt.Errorf("panic: %v", val)
+		} else if rerr != nil && (i%2 == 0 || j.fixed != nil) {
+			// presentation variants of every second rejected case
+			core.Safely(func() {
+				lg.CheckPresentations(spec, built, rerr, func(v common.Transaction) error { return rule(v, 1000, st, pps[e]) })
+			})
 		}
 		lib := rerr == nil
 		c.Count("generated:"+strings.SplitN(label, ":", 2)[0], 1)
@@ -1220,8 +1231,12 @@ func run(c *core.Ctx) {
 		}
 	})
 	co.flush(c)
+	sharedStateFamily(c, rules, pps)
 	for _, e := range lg.AllEras {
 		en := e.String()
+		if e.HasMultiAsset() && c.Counter("shared_state_scenarios_"+en) == 0 {
+			forceInconclusive(c, en+": the shared-state scenarios never had the intended fresh verdicts (honest accepted, conflicting rejected)")
+		}
 		if c.Counter("balanced_accepted_"+en) == 0 {
 			forceInconclusive(c, en+": no balanced transaction was accepted")
 		}
